@@ -27,7 +27,13 @@ def get(prog):
     key = prog.dir
     if key in _mem:
         return _mem[key]
-    cache = os.path.join(prog.dir, f"ai.{_src_hash()}.pkl")
+    # the result depends only on the facts of oq3_parser and on the analyser sources
+    h = hashlib.sha256()
+    with open(os.path.join(prog.dir, "oq3_parser.json"), "rb") as f:
+        h.update(f.read())
+    cdir = os.path.join(os.path.dirname(prog.dir), "ai")
+    os.makedirs(cdir, exist_ok=True)
+    cache = os.path.join(cdir, f"ai.{h.hexdigest()[:20]}.{_src_hash()}.pkl")
     if os.path.exists(cache):
         try:
             with open(cache, "rb") as f:
